@@ -17,6 +17,8 @@ Template directives (a line whose first non-blank characters are `//@`):
       //@loop <k>        following lines go between the k-th loop header and its `{`
       //@loopentry <k>   following lines go right after the k-th loop's `{`
       //@loopexit <k>    following lines go right after the k-th loop's closing `}`
+      //@blocktail <k> <tokens>  following lines go in front of the tail expression (or closing brace) of the block that
+                         encloses the k-th occurrence of <tokens>: where that block's locals are about to be dropped
       //@closure <k> <header>   header replaces `|params|` of the k-th closure; its body is braced
       //@before <k> <token> [@after <pattern>]   (//@before? = skip silently when the anchor is absent; with @after, occurrences
                                 are counted from the first occurrence of <pattern>) following lines go before the k-th occurrence of <token> (if that is
@@ -108,6 +110,19 @@ class RepoFile:
         if rel not in cls.cache:
             cls.cache[rel] = RepoFile(rel)
         return cls.cache[rel]
+
+    @classmethod
+    def virtual(cls, rel, src):
+        """a file that does not exist as such: text cut out of a real file by //@lift (a closure body given a name)"""
+        rf = cls.__new__(cls)
+        rf.rel, rf.src = rel, src
+        try:
+            rf.toks = L.tokenize(src)
+            rf.items = L.top_items(rf.toks)
+        except L.LexError as e:
+            raise Undecided("cannot lex lifted text %s: %s" % (rel, e))
+        cls.cache[rel] = rf
+        return rf
 
     def find_item(self, kw, name):
         c = [i for i in self.items if i["kw"] == kw and i["name"] == name]
@@ -481,6 +496,137 @@ def _ghost_names(lines):
     names |= set(re.findall(r"(?:proof\s*\{|;)\s*([A-Za-z_][A-Za-z0-9_]*)\s*=[^=]", txt))
     return names
 
+def rw_R32(rf, a, b):
+    """`<place>.fetch_add(n, ord)` / `.fetch_sub(n, ord)` -> verif_fetch_add(&<place>, n, ord) / verif_fetch_sub(..): same std call
+    inside, with an effect witness as contract (vstd already declares a specification for these two, a second one is refused)"""
+    toks, sg, out = rf.toks, _sig(rf.toks, a, b), []
+    for k, i in enumerate(sg):
+        t = toks[i]
+        if t.kind == "ident" and t.text in ("fetch_add", "fetch_sub") and k > 0 and toks[sg[k - 1]].text == "." and toks[sg[k + 1]].text == "(":
+            j = _recv_chain(toks, sg, k - 1)
+            if j is None:
+                continue
+            recv = L.text(toks, sg[j], sg[k - 1]).strip()
+            out.append((Edit(sg[j], sg[k + 1] + 1, "verif_%s(&%s, " % (t.text, recv), ("gen", "R32")), "R32 %s:%d `%s.%s(..)` -> verif_%s" % (rf.rel, t.line, recv, t.text, t.text)))
+    return out
+
+
+# names that hold an opaque task (R2 replaced `Box<dyn FnMut() + Send>` by VerifTask): `//@tasks f task` inside //@fn
+R30_TASKS = set()
+
+
+def rw_R30(rf, a, b):
+    """`f();` on a variable holding an opaque task -> `f.verif_run();` (R2 made the boxed closure type opaque, so the call
+    operator is gone; verif_run calls it)"""
+    toks, sg, out = rf.toks, _sig(rf.toks, a, b), []
+    for k, i in enumerate(sg):
+        t = toks[i]
+        if t.kind == "ident" and t.text in R30_TASKS and _seq_at(toks, sg, k + 1, ["(", ")"]) and (k == 0 or toks[sg[k - 1]].text in ("{", ";", "}")):
+            out.append((Edit(i, sg[k + 2] + 1, "%s.verif_run()" % t.text, ("gen", "R30")), "R30 %s:%d `%s()` -> %s.verif_run()" % (rf.rel, t.line, t.text, t.text)))
+    return out
+
+
+# constructor paths that the template declares to be RAII counter guards (`//@guards <Path::new>` inside //@fn)
+R29_GUARDS = set()
+
+
+def rw_R29(rf, a, b):
+    """ghost bookkeeping for atomic counters and their RAII guards (only in functions whose template says `//@guards`):
+    the function keeps two ghost maps, `verif_cnt` (the model of each counter's value) and `verif_mine` (this thread's own
+    contribution to it).  (a) `<place>.fetch_add(n, ord);` / `.fetch_sub(..)` bump both by +n / -n;  (b) `let g =
+    <Guard>::new(&<place>);` bumps both by +1 (the constructor's effect, proved on its body);  (c) where Rust drops `g` --
+    the natural end of the block that declares it and every `return` / `break` / `continue` that leaves that block after
+    the declaration (A-DROP, written out here by lexical scope) -- both are bumped by -1 (the effect of the guard's Drop,
+    proved on its body).  Only ghost statements are inserted."""
+    if not R29_GUARDS:
+        return []
+    toks, sg, out = rf.toks, _sig(rf.toks, a, b), []
+    def bump(place, n):
+        return "proof { verif_cnt = verif_bump(verif_cnt, atomic_id(&%s), %s); verif_mine = verif_bump(verif_mine, atomic_id(&%s), %s); }" % (place, n, place, n)
+    def stmt_end(k):
+        depth = 0
+        for m in range(k, len(sg)):
+            tx = toks[sg[m]].text
+            if toks[sg[m]].kind == "punct":
+                if tx in "([{":
+                    depth += 1
+                elif tx in ")]}":
+                    if depth == 0:
+                        return None
+                    depth -= 1
+                elif tx == ";" and depth == 0:
+                    return m
+        return None
+    # blocks: (open_k, close_k) in sg indices
+    pos = {i: k for k, i in enumerate(sg)}
+    blocks = []
+    for k, i in enumerate(sg):
+        if toks[i].text == "{":
+            c = L.match_close(toks, i)
+            if c in pos:
+                blocks.append((k, pos[c]))
+    loops = [(pos[kw], pos[ob], pos[L.match_close(toks, ob)]) for kw, ob in find_loops(toks, a, b) if ob in pos and L.match_close(toks, ob) in pos]
+    def enclosing_block(k):
+        best = None
+        for (o, c) in blocks:
+            if o < k < c and (best is None or o > best[0]):
+                best = (o, c)
+        return best
+    guards = []   # (decl_end_k, block, place)
+    for k, i in enumerate(sg):
+        t = toks[i]
+        # (a) direct modifications
+        if t.kind == "ident" and t.text in ("fetch_add", "fetch_sub") and k > 0 and toks[sg[k - 1]].text == "." and toks[sg[k + 1]].text == "(":
+            j = _recv_chain(toks, sg, k - 1)
+            close = L.match_close(toks, sg[k + 1])
+            args = L.text(toks, sg[k + 1] + 1, close)
+            n = args.split(",")[0].strip()
+            e = stmt_end(k)
+            if j is None or e is None or not re.match(r"^[0-9]+$", n):
+                raise Undecided("R29: cannot model `%s` at %s:%d" % (t.text, rf.rel, t.line))
+            place = L.text(toks, sg[j], sg[k - 1]).strip()
+            out.append((Edit(sg[e] + 1, sg[e] + 1, " " + bump(place, n if t.text == "fetch_add" else "-" + n), ("gen", "R29")),
+                        "R29 %s:%d ghost: `%s.%s(%s, ..)` bumps the counter model by %s%s" % (rf.rel, t.line, place, t.text, n, "+" if t.text == "fetch_add" else "-", n)))
+        # (b) guard declarations  `let IDENT = Path::new(&PLACE);`
+        if t.kind == "ident" and t.text == "let" and k + 3 < len(sg) and toks[sg[k + 1]].kind == "ident" and toks[sg[k + 2]].text == "=":
+            e = stmt_end(k)
+            if e is None:
+                continue
+            txt = L.norm(L.text(toks, sg[k + 3], sg[e])).replace(" ", "")
+            for g in R29_GUARDS:
+                m = re.match(r"^" + re.escape(g.replace(" ", "")) + r"\(&([A-Za-z_][A-Za-z0-9_.]*)\)$", txt)
+                if m:
+                    blk = enclosing_block(k)
+                    if blk is None:
+                        raise Undecided("R29: guard outside a block at %s:%d" % (rf.rel, t.line))
+                    guards.append((e, blk, m.group(1), toks[sg[k + 1]].text, t.line))
+                    out.append((Edit(sg[e] + 1, sg[e] + 1, " " + bump(m.group(1), "1"), ("gen", "R29")),
+                                "R29 %s:%d ghost: guard `%s` registers on `%s` (+1)" % (rf.rel, t.line, toks[sg[k + 1]].text, m.group(1))))
+    # (c) where the guards die
+    for (e, (bo_k, bc_k), place, name, line) in guards:
+        out.append((Edit(sg[bc_k], sg[bc_k], " " + bump(place, "-1") + " ", ("gen", "R29"), order=-5),
+                    "R29 %s:%d ghost: guard `%s` dies at the end of its block and at every return/break/continue leaving it (-1)" % (rf.rel, line, name)))
+        for k in range(e + 1, bc_k):
+            t = toks[sg[k]]
+            if t.kind != "ident" or t.text not in ("return", "break", "continue"):
+                continue
+            if t.text in ("break", "continue"):
+                inner = None
+                for (kw_k, lo_k, lc_k) in loops:
+                    if lo_k < k < lc_k and (inner is None or lo_k > inner[0]):
+                        inner = (lo_k, lc_k)
+                if inner is None or not (inner[0] <= bo_k and bc_k <= inner[1]):
+                    continue      # the loop being left is nested inside the guard's block: the guard survives
+            out.append((Edit(sg[k], sg[k], bump(place, "-1") + " ", ("gen", "R29"), order=-5), None))
+        if any(toks[sg[k]].text == "?" for k in range(e + 1, bc_k)):
+            raise Undecided("R29: `?` inside the scope of guard `%s` (%s:%d) is not elaborated" % (name, rf.rel, line))
+    return out
+
+
+# names that the template declares to BE iterators (`//@iterator <name>` inside //@fn): `for x in <name>` is desugared too
+R23_ITERATORS = set()
+
+
 def rw_R23(rf, a, b):
     """`for PAT in EXPR { .. }` -> the desugaring `{ let mut it = EXPR; loop { let PAT = match it.next() {
     Some(v) => v, None => break }; .. } }` (this Verus has no `continue` in for-loops, and the contracts can then name the
@@ -521,7 +667,7 @@ def rw_R23(rf, a, b):
                 continue
             close = L.match_close(toks, sg[kopen])
             expr = L.text(toks, sg[kin + 1], sg[kopen]).strip()
-            if not re.search(r"\.\s*(iter|iter_mut|into_iter)\s*\(\s*\)$", expr):
+            if not re.search(r"\.\s*(iter|iter_mut|into_iter)\s*\(\s*\)$", expr) and expr not in R23_ITERATORS:
                 continue
             pat = L.text(toks, sg[k + 1], sg[kin]).strip()
             n += 1
@@ -755,7 +901,7 @@ def rw_R5b(rf, a, b):
     return out
 
 
-REWRITES = {"R27": rw_R27, "R26": rw_R26, "R25": rw_R25, "R23": rw_R23, "R24": rw_R24, "R5b": rw_R5b, "R21": rw_R21, "R8": rw_R8, "R22": rw_R22, "R3b": rw_R3b, "R20": rw_R20, "R19": rw_R19, "R18": rw_R18, "R2b": rw_R2b, "R15": rw_R15, "R2": rw_R2, "R7": rw_R7, "R3": rw_R3, "R1": rw_R1, "R4": rw_R4, "R5": rw_R5, "R10": rw_R10, "R13": rw_R13, "R14": rw_R14}
+REWRITES = {"R32": rw_R32, "R30": rw_R30, "R29": rw_R29, "R27": rw_R27, "R26": rw_R26, "R25": rw_R25, "R23": rw_R23, "R24": rw_R24, "R5b": rw_R5b, "R21": rw_R21, "R8": rw_R8, "R22": rw_R22, "R3b": rw_R3b, "R20": rw_R20, "R19": rw_R19, "R18": rw_R18, "R2b": rw_R2b, "R15": rw_R15, "R2": rw_R2, "R7": rw_R7, "R3": rw_R3, "R1": rw_R1, "R4": rw_R4, "R5": rw_R5, "R10": rw_R10, "R13": rw_R13, "R14": rw_R14}
 
 
 # --------------------------------------------------------------------------------------------
@@ -858,6 +1004,10 @@ class FnSpec:
         self.loops = {}       # k -> lines
         self.loopentry = {}
         self.loopexit = {}
+        self.iterators = set()
+        self.guards = set()
+        self.tasks = set()
+        self.blocktail = []
         self.closures = {}    # k -> (header, tplline)
         self.closures_by_text = []
         self.before = []      # (k, token, lines)
@@ -911,6 +1061,13 @@ class Unit:
             elif cmd == "item":
                 self._item(d[1], d[2], d[3])
                 i += 1
+            elif cmd == "lift":
+                # //@lift <file> <enclosing fn> ~closure selector~ <virtual file name> <signature of the new function>
+                m = re.match(r"//@lift\s+(\S+)\s+(\S+)\s+~(.+?)~\s+(\S+)\s+(fn\s.*)$", s)
+                if not m:
+                    raise Undecided("bad //@lift at %s:%d" % (relname, i + 1))
+                self._lift(m.group(1), m.group(2), m.group(3), m.group(4), m.group(5))
+                i += 1
             elif cmd == "impl":
                 m = re.match(r'//@impl\s+(\S+)\s+"([^"]+)"(\s+inherent)?(\s+required)?', s)
                 if not m:
@@ -961,9 +1118,44 @@ class Unit:
                     self.rewrites.append(desc)
         return edits
 
+    def _lift(self, rel, fn_name, selector, vrel, signature):
+        """R28: the body of a closure (e.g. the one handed to thread::spawn / TaskPool::spawn) becomes the body of a named
+        function, verbatim; the closure's captured variables become the parameters named in `signature` (written in the
+        template: the captures of a `move` closure are not spelled out in the source)."""
+        rf = RepoFile.get(rel)
+        cands = [f for f in rf.items if f["kw"] == "fn" and f["name"] == fn_name]
+        for it in rf.items:
+            if it["kw"] == "impl" and it["body_open"] is not None:
+                cands += [f for f in rf.fns_in(it) if f["kw"] == "fn" and f["name"] == fn_name]
+        if len(cands) != 1 or cands[0]["body_open"] is None:
+            raise Undecided("lost anchor: fn %s in %s (for //@lift)" % (fn_name, rel))
+        it = cands[0]
+        cls = find_closures(rf.toks, it["body_open"] + 1, it["end"] - 1)
+        nsel = L.norm(selector).replace(" ", "")
+        hits = [c for c in cls if c[4] and nsel in L.text(rf.toks, c[0], c[3]).replace(" ", "").replace("\n", "").replace("\t", "")]
+        # the INNERMOST block closure containing the text
+        hits = [h for h in hits if not any(o is not h and h[0] < o[0] and o[3] <= h[3] for o in hits)]
+        if len(hits) != 1:
+            raise Undecided("lost anchor: closure ~%s~ in %s of %s (%d candidates)" % (selector, fn_name, rel, len(hits)))
+        c = hits[0]
+        body = L.text(rf.toks, c[2], c[3])
+        RepoFile.virtual(vrel, signature + " " + body + "\n")
+        self.rewrites.append("R28 %s:%d the body of the closure ~%s~ in %s lifted verbatim into `%s`" % (rel, rf.toks[c[0]].line, selector, fn_name, L.norm(signature)))
+
     def _item(self, rel, kw, name):
         rf = RepoFile.get(rel)
         it = rf.find_item(kw, name)
+        if kw == "static":
+            # R31: `static N: T = <literal>;` -> `exec static N: T ensures N == <literal> { <literal> }` (this Verus wants statics
+            # marked exec, with their value as an ensures clause)
+            txt = L.norm(L.text(rf.toks, it["kw_idx"], it["end"]))
+            m = re.match(r"^static (\w+)\s*:\s*([\w:<>]+)\s*=\s*([0-9][0-9_]*)\s*;$", txt)
+            if not m:
+                raise Undecided("static %s in %s is not `static N: T = <integer literal>;`" % (name, rel))
+            self.out.nl()
+            self.out.emit("pub exec static %s: %s ensures %s == %s { %s }\n" % (m.group(1), m.group(2), m.group(1), m.group(3), m.group(3)), ("gen", "R31"))
+            self.rewrites.append("R31 %s:%d `%s` -> exec static with its value as ensures" % (rel, rf.toks[it["kw_idx"]].line, txt))
+            return
         derives = []
         s = strip_attrs_start(rf.toks, it, derives)
         self.out.nl()
@@ -1030,7 +1222,7 @@ class Unit:
     def _fn(self, args, body_lines, relname, tpl_line):
         # header args
         rel = None
-        if args and args[0].endswith(".rs"):
+        if args and (args[0].endswith(".rs") or ".rs#" in args[0]):
             rel = args[0]
             args = args[1:]
         fs = FnSpec(args[0])
@@ -1082,6 +1274,18 @@ class Unit:
                 elif c in ("after", "after?"):
                     cur = []
                     fs.after.append((int(d[1]), d[2] + (" ?optional" if c.endswith("?") else ""), cur))
+                elif c == "iterator":
+                    fs.iterators.add(d[1])
+                    cur = None
+                elif c == "guards":
+                    fs.guards.add(d[1])
+                    cur = None
+                elif c == "tasks":
+                    fs.tasks.update(s[3:].split()[1:])
+                    cur = None
+                elif c == "blocktail":
+                    cur = []
+                    fs.blocktail.append((int(d[1]), d[2], cur))
                 elif c == "no":
                     fs.no.add(d[1])
                 elif c == "assume":
@@ -1121,7 +1325,18 @@ class Unit:
             raise Undecided("fn %s has no body" % qual)
         start = strip_attrs_start(toks, it)
         bo, be = it["body_open"], it["end"] - 1  # `{` and `}` indices
-        edits = self._apply_rewrites(rf, start, it["end"], fs.no)
+        R23_ITERATORS.clear()
+        R23_ITERATORS.update(fs.iterators)
+        R29_GUARDS.clear()
+        R29_GUARDS.update(fs.guards)
+        R30_TASKS.clear()
+        R30_TASKS.update(fs.tasks)
+        try:
+            edits = self._apply_rewrites(rf, start, it["end"], fs.no)
+        finally:
+            R23_ITERATORS.clear()
+            R29_GUARDS.clear()
+            R30_TASKS.clear()
 
         # R17: `mut self` receiver -> `self` + `let mut __self = self;` with the body's `self` renamed
         sgh = _sig(toks, it["kw_idx"], bo)
@@ -1419,6 +1634,45 @@ class Unit:
                 raise Undecided("statement end not found after `%s` in %s" % (tok, qual))
             edits.append(Edit(e + 1, e + 1, "\n" + tpl_text(lines), ("tpl", relname, lines[0][1] - 1)))
 
+        for k, tok, lines in fs.blocktail:
+            # text in front of the tail expression (or the closing brace) of the block that encloses the anchor statement:
+            # the point where the locals of that block are about to be dropped
+            words = [t.text for t in L.tokenize(tok) if t.kind != "ws"]
+            occ = [x for x in range(len(sgb)) if _seq_at(toks, sgb, x, words)]
+            if k < 1 or k > len(occ):
+                raise Undecided("lost anchor: occurrence %d of `%s` in %s (%d found)" % (k, tok, qual, len(occ)))
+            x = occ[k - 1]
+            depth, y = 0, x
+            while y > 0:
+                tx = toks[sgb[y - 1]].text
+                if tx in ")]}":
+                    depth += 1
+                elif tx in "([{":
+                    if depth == 0:
+                        break
+                    depth -= 1
+                y -= 1
+            if y == 0 or toks[sgb[y - 1]].text != "{":
+                raise Undecided("no enclosing block for `%s` in %s" % (tok, qual))
+            b_open = sgb[y - 1]
+            b_close = L.match_close(toks, b_open)
+            inner = [j for j in sgb if b_open < j < b_close]
+            depth, last = 0, None
+            for j in inner:
+                tx = toks[j].text
+                if toks[j].kind == "punct":
+                    if tx in "([{":
+                        depth += 1
+                    elif tx in ")]}":
+                        depth -= 1
+                        if depth == 0 and tx == "}":
+                            last = j
+                    elif tx == ";" and depth == 0:
+                        last = j
+            after_last = [j for j in inner if last is None or j > last]
+            ins = after_last[0] if after_last else b_close
+            edits.append(Edit(ins, ins, "\n" + tpl_text(lines), ("tpl", relname, lines[0][1] - 1), order=-3))
+
         if fs.wraptail:
             # R16: wrap the tail expression of the body in a same-body wrapper call
             sgt = _sig(toks, bo + 1, be)
@@ -1603,6 +1857,8 @@ def count_clauses(fs):
     for v in fs.loopentry.values():
         scan(v)
     for v in fs.loopexit.values():
+        scan(v)
+    for _, _, v in fs.blocktail:
         scan(v)
     for hdr, _ in fs.closures.values():
         if "ensures" in hdr:
